@@ -72,6 +72,270 @@ fn c09_backward_matches_python() {
     kani::cover!(start.is_some() && stop.is_some() && stop.unwrap() > start.unwrap() && start.unwrap() >= 0);
 }
 
+// ------------------------------------------------- C08 integer arithmetic
+
+/// Exact mathematical value of an integer-valued `Value`, read off its representation.
+fn z_of(v: &Value) -> Option<Z> {
+    match v.0 {
+        ValueRepr::U64(x) => Some(Z::from_u128(x as u128)),
+        ValueRepr::I64(x) => Some(Z::from_i128(x as i128)),
+        ValueRepr::U128(x) => Some(Z::from_u128(x.0)),
+        ValueRepr::I128(x) => Some(Z::from_i128(x.0)),
+        _ => None,
+    }
+}
+
+/// The C08 rule for one binary integer operation: an Ok result is an integer equal to the exact
+/// mathematical result (`exact`; None = magnitude beyond 2^128), and an Err is only allowed when an
+/// operand or the exact result lies outside the signed 128-bit range.
+fn check_exact(a: Z, b: Z, exact: Option<Z>, res: &Result<Value, Error>) {
+    match res {
+        Ok(v) => {
+            let got = z_of(v);
+            assert!(got.is_some());
+            assert!(exact.is_some());
+            assert!(got.unwrap().norm() == exact.unwrap().norm());
+        }
+        Err(_) => {
+            let fits = z_fits_i128(a) && z_fits_i128(b) && exact.map_or(false, z_fits_i128);
+            assert!(!fits);
+        }
+    }
+}
+
+macro_rules! arith_harness {
+    ($name:ident, $f:ident, $zf:ident, $ta:ty, $tb:ty) => {
+        #[kani::proof]
+        #[kani::unwind(3)]
+        #[kani::stub(alloc::fmt::format, crate::verif_common::format_stub)]
+        fn $name() {
+            let x: $ta = kani::any();
+            let y: $tb = kani::any();
+            let (va, vb) = (Value::from(x), Value::from(y));
+            let (a, b) = (z_of(&va).unwrap(), z_of(&vb).unwrap());
+            let res = $f(&va, &vb);
+            check_exact(a, b, $zf(a, b), &res);
+            kani::cover!(res.is_ok());
+            kani::cover!(matches!(res, Ok(ref v) if matches!(v.0, ValueRepr::I128(_))));
+            core::mem::forget(res);
+            core::mem::forget(va);
+            core::mem::forget(vb);
+        }
+    };
+}
+
+// @verif-block props=C08,C01 tier=quick cap=300 group=core doc=ops::add/sub/mul_on_two_integers_of_the_listed_representations,_payloads_fully_symbolic:_Ok(v)_=>_v_is_the_mathematically_exact_result_(sign+u128_magnitude_reference),_Err_only_if_an_operand_or_the_result_is_outside_[-2^127,2^127),_no_panic
+arith_harness!(c08_add_u64_u64, add, z_add, u64, u64);
+arith_harness!(c08_add_u64_i64, add, z_add, u64, i64);
+arith_harness!(c08_add_i64_u64, add, z_add, i64, u64);
+arith_harness!(c08_add_i64_i64, add, z_add, i64, i64);
+arith_harness!(c08_add_i64_i128, add, z_add, i64, i128);
+arith_harness!(c08_add_i128_i64, add, z_add, i128, i64);
+arith_harness!(c08_add_i128_i128, add, z_add, i128, i128);
+arith_harness!(c08_add_u128_u128, add, z_add, u128, u128); // tier=thorough cap=3000
+arith_harness!(c08_add_u128_i128, add, z_add, u128, i128); // tier=thorough cap=3000
+arith_harness!(c08_add_i128_u128, add, z_add, i128, u128); // tier=thorough cap=3000
+arith_harness!(c08_add_u64_u128, add, z_add, u64, u128); // tier=thorough cap=3000
+arith_harness!(c08_add_u128_i64, add, z_add, u128, i64); // tier=thorough cap=3000
+arith_harness!(c08_add_u64_i128, add, z_add, u64, i128); // tier=thorough
+arith_harness!(c08_add_i128_u64, add, z_add, i128, u64); // tier=thorough
+arith_harness!(c08_add_i64_u128, add, z_add, i64, u128); // tier=thorough
+arith_harness!(c08_add_u128_u64, add, z_add, u128, u64); // tier=thorough
+arith_harness!(c08_sub_u64_u64, sub, z_sub, u64, u64);
+arith_harness!(c08_sub_u64_i64, sub, z_sub, u64, i64);
+arith_harness!(c08_sub_i64_u64, sub, z_sub, i64, u64);
+arith_harness!(c08_sub_i64_i64, sub, z_sub, i64, i64);
+arith_harness!(c08_sub_i128_i128, sub, z_sub, i128, i128);
+arith_harness!(c08_sub_u128_u128, sub, z_sub, u128, u128);
+arith_harness!(c08_sub_u128_i128, sub, z_sub, u128, i128);
+arith_harness!(c08_sub_i128_u128, sub, z_sub, i128, u128);
+arith_harness!(c08_sub_i64_i128, sub, z_sub, i64, i128); // tier=thorough
+arith_harness!(c08_sub_i128_i64, sub, z_sub, i128, i64); // tier=thorough
+arith_harness!(c08_sub_u64_u128, sub, z_sub, u64, u128); // tier=thorough
+arith_harness!(c08_sub_u128_u64, sub, z_sub, u128, u64); // tier=thorough
+arith_harness!(c08_sub_u64_i128, sub, z_sub, u64, i128); // tier=thorough
+arith_harness!(c08_sub_i128_u64, sub, z_sub, i128, u64); // tier=thorough
+arith_harness!(c08_sub_i64_u128, sub, z_sub, i64, u128); // tier=thorough
+arith_harness!(c08_sub_u128_i64, sub, z_sub, u128, i64); // tier=thorough
+arith_harness!(c08_mul_u64_u64, mul, z_mul, u64, u64); // cap=900
+arith_harness!(c08_mul_i64_i64, mul, z_mul, i64, i64); // cap=900
+arith_harness!(c08_mul_u64_i64, mul, z_mul, u64, i64); // cap=900
+arith_harness!(c08_mul_i64_u64, mul, z_mul, i64, u64); // cap=900
+arith_harness!(c08_mul_i128_i128, mul, z_mul, i128, i128); // tier=thorough cap=3600
+arith_harness!(c08_mul_u128_u128, mul, z_mul, u128, u128); // tier=thorough cap=3600
+arith_harness!(c08_mul_i64_i128, mul, z_mul, i64, i128); // tier=thorough cap=3600
+arith_harness!(c08_mul_u128_i64, mul, z_mul, u128, i64); // tier=thorough cap=3600
+// @verif-end
+
+macro_rules! neg_harness {
+    ($name:ident, $ta:ty, $excl:expr, $only:expr) => {
+        #[kani::proof]
+        #[kani::unwind(3)]
+        #[kani::stub(alloc::fmt::format, crate::verif_common::format_stub)]
+        fn $name() {
+            let x: $ta = kani::any();
+            // known finding KF-C08-neg-2p127: region x == 2^127 (only reachable as u128)
+            let in_region = (x as u128) == MIN_I128_AS_POS_U128 && $excl;
+            kani::assume(in_region == $only);
+            let va = Value::from(x);
+            let a = z_of(&va).unwrap();
+            let res = neg(&va);
+            check_exact(a, a, Some(z_neg(a)), &res);
+            kani::cover!(res.is_ok());
+            core::mem::forget(res);
+            core::mem::forget(va);
+        }
+    };
+}
+
+// @verif-block props=C08,C01 tier=quick cap=300 group=core doc=ops::neg_on_an_integer_of_the_listed_representation,_payload_fully_symbolic:_Ok(v)_=>_v_==_-x_exactly,_Err_only_if_x_or_-x_is_outside_the_signed_128-bit_range
+neg_harness!(c08_neg_u64, u64, false, false);
+neg_harness!(c08_neg_i64, i64, false, false);
+neg_harness!(c08_neg_i128, i128, false, false);
+neg_harness!(c08_neg_u128, u128, true, false);
+neg_harness!(c08_neg_u128_known_2p127, u128, true, true); // known=KF-C08-neg-2p127
+// @verif-end
+
+/// Euclid for 64-bit operands: q = a // b and r = a % b are both Ok exactly when b != 0 and equal
+/// i128::div_euclid / rem_euclid of the exact operands (std's contract for those: q*b + r == a, 0 <= r < |b|).
+macro_rules! euclid_harness {
+    ($name:ident, $ta:ty, $tb:ty) => {
+        #[kani::proof]
+        #[kani::unwind(3)]
+        #[kani::stub(alloc::fmt::format, crate::verif_common::format_stub)]
+        fn $name() {
+            let x: $ta = kani::any();
+            let y: $tb = kani::any();
+            let (va, vb) = (Value::from(x), Value::from(y));
+            let (xi, yi) = (x as i128, y as i128);
+            let q = int_div(&va, &vb);
+            let r = rem(&va, &vb);
+            if yi == 0 {
+                assert!(q.is_err() && r.is_err());
+            } else {
+                // 64-bit operands: quotient and remainder always fit, so both must succeed
+                assert!(q.is_ok() && r.is_ok());
+                let (zq, zr) = (z_of(q.as_ref().unwrap()).unwrap(), z_of(r.as_ref().unwrap()).unwrap());
+                assert!(zq.norm() == Z::from_i128(xi.div_euclid(yi)).norm());
+                assert!(zr.norm() == Z::from_i128(xi.rem_euclid(yi)).norm());
+                assert!(!zr.neg && zr.mag < yi.unsigned_abs());
+            }
+            kani::cover!(yi != 0 && xi < 0 && yi < 0);
+            kani::cover!(yi == 0);
+            core::mem::forget((q, r, va, vb));
+        }
+    };
+}
+
+/// The Euclidean identity itself, checked by multiplication on narrow operands (all i8 x i8 pairs stored
+/// as I64): (a // b) * b + a % b == a and 0 <= a % b < |b|.
+macro_rules! euclid_identity_harness {
+    ($name:ident, $t:ty) => {
+        #[kani::proof]
+        #[kani::unwind(3)]
+        #[kani::stub(alloc::fmt::format, crate::verif_common::format_stub)]
+        fn $name() {
+            let x: $t = kani::any();
+            let y: $t = kani::any();
+            kani::assume(y != 0);
+            let (va, vb) = (Value::from(x as i64), Value::from(y as i64));
+            let q = int_div(&va, &vb);
+            let r = rem(&va, &vb);
+            assert!(q.is_ok() && r.is_ok());
+            let (zq, zr) = (z_of(q.as_ref().unwrap()).unwrap(), z_of(r.as_ref().unwrap()).unwrap());
+            let (qi, ri) = (zq.to_i128().unwrap() as i64, zr.to_i128().unwrap() as i64);
+            assert!(qi * (y as i64) + ri == x as i64);
+            assert!(ri >= 0 && ri < (y as i64).abs());
+            kani::cover!(x < 0 && y < 0 && ri != 0);
+            kani::cover!(x < 0 && y > 0 && ri != 0);
+            core::mem::forget((q, r, va, vb));
+        }
+    };
+}
+
+// @verif-block props=C08,C01 tier=quick cap=900 group=core doc=Euclidean_convention:_a//b_and_a%b_equal_i128::div_euclid/rem_euclid_of_the_exact_operands_(64-bit_operands_fully_symbolic),_division_by_zero_is_an_error_for_both;_and_on_all_i8_pairs_the_identity_(a//b)*b+a%b==a,_0<=a%b<|b|_is_checked_by_multiplication
+euclid_harness!(c08_euclid_i64_i64, i64, i64); // tier=thorough cap=3600
+euclid_harness!(c08_euclid_u64_i64, u64, i64); // tier=thorough
+euclid_harness!(c08_euclid_i64_u64, i64, u64); // tier=thorough
+euclid_identity_harness!(c08_euclid_identity_i8, i8); // cap=600
+// @verif-end
+
+// @verif props=C08,C01 tier=quick cap=600 group=core fns=ops::int_div,ops::rem
+/// 128-bit corner of // and %: for every i128 pair the only failures are b == 0 and i128::MIN // -1 (whose
+/// result 2^127 is outside the signed range); a successful // or % never panics and % is in [0, |b|).
+#[kani::proof]
+#[kani::unwind(3)]
+#[kani::stub(alloc::fmt::format, crate::verif_common::format_stub)]
+fn c08_divrem_i128_failures() {
+    let x: i128 = kani::any();
+    let y: i128 = kani::any();
+    let (va, vb) = (Value::from(x), Value::from(y));
+    let q = int_div(&va, &vb);
+    let r = rem(&va, &vb);
+    let overflow = x == i128::MIN && y == -1;
+    assert!(q.is_ok() == (y != 0 && !overflow));
+    if let Ok(ref rv) = r {
+        let zr = z_of(rv).unwrap();
+        assert!(!zr.neg && zr.mag < y.unsigned_abs());
+    } else {
+        assert!(y == 0 || overflow);
+    }
+    kani::cover!(overflow);
+    kani::cover!(q.is_ok() && x < 0 && y < 0);
+    core::mem::forget((q, r, va, vb));
+}
+
+macro_rules! pow_harness {
+    ($name:ident, $ta:ty, $e:expr) => {
+        #[kani::proof]
+        #[kani::unwind(8)]
+        #[kani::stub(alloc::fmt::format, crate::verif_common::format_stub)]
+        fn $name() {
+            let x: $ta = kani::any();
+            let va = Value::from(x);
+            let ve = Value::from($e as i64);
+            let a = z_of(&va).unwrap();
+            let mut exact = Some(Z::from_u128(1));
+            let mut i = 0;
+            while i < $e {
+                exact = match exact {
+                    Some(p) => z_mul(p, a),
+                    None => None,
+                };
+                i += 1;
+            }
+            let res = pow(&va, &ve);
+            check_exact(a, Z::from_i128($e as i128), exact, &res);
+            kani::cover!(res.is_ok());
+            kani::cover!(res.is_err());
+            core::mem::forget((res, va, ve));
+        }
+    };
+}
+
+// @verif-block props=C08,C01 tier=thorough cap=3600 group=core doc=ops::pow(base,e)_for_a_fully_symbolic_64-bit_base_and_the_listed_exponent:_exact_or_Err,_Err_only_when_the_power_leaves_the_signed_128-bit_range
+pow_harness!(c08_pow_i64_e2, i64, 2);
+pow_harness!(c08_pow_i64_e3, i64, 3);
+pow_harness!(c08_pow_u64_e2, u64, 2);
+// @verif-end
+
+// @verif props=C08,C01 tier=quick cap=600 group=core fns=ops::pow
+/// pow with a negative or > u32::MAX exponent is an error, never a panic or a wrong value (base, exponent: any i64).
+#[kani::proof]
+#[kani::unwind(3)]
+#[kani::stub(alloc::fmt::format, crate::verif_common::format_stub)]
+fn c08_pow_bad_exponent_is_error() {
+    let x: i64 = kani::any();
+    let e: i64 = kani::any();
+    kani::assume(e < 0 || e > u32::MAX as i64);
+    let (va, ve) = (Value::from(x), Value::from(e));
+    let res = pow(&va, &ve);
+    assert!(res.is_err());
+    kani::cover!(e < 0);
+    kani::cover!(e > 0);
+    core::mem::forget((res, va, ve));
+}
+
 #[cfg(test)]
 mod playback {
     use super::*;
